@@ -147,6 +147,11 @@ def run(ctx):
         try:
             ctx.attempt("check_tryfrom", c08.check_tryfrom, ctx, ctx.lib(cfg))
             ctx.attempt("check_serialize", c08.check_serialize, ctx, ctx.lib(cfg))
+            # ... and the generic side of every row is the crate's own Serializer with its sequence / map states
+            # (shared with C14): what the specialised conversions must agree with
+            from . import c14
+            ctx.attempt("check_serializer", c14.check_serializer, ctx, ctx.lib(cfg))
+            ctx.attempt("check_states", c14.check_states, ctx, ctx.lib(cfg))
         finally:
             ctx.key_prefix = saved
     # generic body in every configuration
